@@ -392,6 +392,9 @@ pub fn run(o: &Opts, stats: &mut Stats) -> Option<usize> {
         if v["config"].get("pair").is_some() {
             return super::c10f::run(o, stats);
         }
+        if v["config"].get("boundary").is_some() {
+            return super::c10v::run(o, stats);
+        }
     }
     let n_main = expanded.len();
     if o.replay.is_some() || o.start_cfg < n_main {
@@ -401,7 +404,12 @@ pub fn run(o: &Opts, stats: &mut Stats) -> Option<usize> {
         }
     }
     let o2 = Opts { start_cfg: o.start_cfg.saturating_sub(n_main), ..o.clone() };
-    super::c10f::run(&o2, stats).map(|r| r + n_main)
+    if let Some(r) = super::c10f::run(&o2, stats) {
+        return Some(r + n_main);
+    }
+    // third part (c10v.rs): the boundaries of the validity ranges
+    super::c10v::run(o, stats);
+    None
 }
 
 /// Work unit = (family, index of the first operation): lets 16 shards share 5 families.
